@@ -94,7 +94,7 @@ Atoms == 1..NAtoms
 Is(a, c) == c \in AtomClasses[a]
 
 \* ------------------------------------------------------------------ shapes
-\* str(a) = the string; obj(k, v) = {k: v}; arr(a, b) = [a, b]; nest(k, v) = {o: {k: [v, {k: v}]}, l: [[v], []]};
+\* str(a) = the string; obj(k, v) = {k: v}; arr(a, b) = [a, b]; nest(k, v) = {o: {k: [v, {k: v}]}, l: [[v], []], m: [{k: v}, v, [{k: v}, 1]]};
 \* mixed = null/bools/numbers/empty containers;
 \* tables(k, v) = {t: {k: v, s: {k: v}, e: {}}, aot: [{k: v}, {k: 1}, {}], e: {}, ea: [], es: {e: {}}, k: v}
 \* jsonml(t, v) = ["root", {at: t}, v, ["c", v]]; ini(k, v) = {main: {k: v}, sections: {sec: {k: v, l: [v, "x"]}}};
